@@ -128,6 +128,10 @@ fn run_case(o: &Opts, case_seed: u64, case_index: u64) -> CaseReport {
     if o.sub.starts_with("sched") || o.sub.starts_with("os") {
         return crate::camp_conc::conc_case(o, case_seed);
     }
+    #[cfg(feature = "persist")]
+    if o.sub.starts_with("persist") {
+        return crate::pworld::persist_case(o, case_seed);
+    }
     if o.sub.starts_with("fault") {
         return crate::camp_fault::fault_case(o, case_seed);
     }
